@@ -112,6 +112,14 @@ def check_consolidate(ctx, c):
             ki += 1
     wit = {"case": c, "n_children": len(kids)}
     ctx.count("oracle.consolidate")
+    # results belong to the caller: changing one does not show up in a later call
+    a0, c0 = ht.consolidate_attrs("only-a-child")
+    a0["polluted"] = "1"
+    c0.append("polluted")
+    a1, c1 = ht.consolidate_attrs("only-a-child")
+    if a1 != {} or c1 != ["only-a-child"]:
+        ctx.violation("consolidate-result-shared", "consolidate_attrs() returned an object polluted by the caller of an earlier call: %r %r" % (a1, c1), wit)
+        return False
     try:
         attrs, children = ht.consolidate_attrs(*args, **kw)
         direct = ht.Tag("x", *args, **kw)
